@@ -22,6 +22,10 @@ def tasks(tier):
         for cons in ([], ["eq0"]) if (pol == "DualNorm" or not q) else ([],):
             for level in ("DEBUG", "INFO") if pol == "DualNorm" else ("DEBUG",):
                 t.append(dict(module="twin", fn="h_observe", shape=dict(K=(1 if q and cons else K), policy=pol, vars=["boxed"], cons=cons, level=level), opts=o))
+    # problem functions that are non-finite at some points: a displayed row evaluates the
+    # rejected candidate too and must swallow the failure
+    for cons in ([], ["eq0"]):
+        t.append(dict(module="twin", fn="h_observe", shape=dict(K=(1 if q and cons else 2), policy="DualNorm", vars=["boxed"], cons=cons, level="DEBUG", point_faults=True), opts=o))
     for c, nt in (("DistanceRatio", "Simplified"), ("Exact", "Simplified"), ("ResiduumRatio", "Full")):
         t.append(dict(module="ctrl", fn="h_step", shape=dict(controller=c, newton=nt, vars=["boxed"], cons=[] if nt == "Simplified" else ["eq0"], faults=False, display=True, debug=True), opts=dict(mulmode="uf", timeout_ms=10000)))
     for sv in steps.SOLVERS:
